@@ -12,7 +12,7 @@ import math
 from hypothesis import Phase, given, seed as hseed, strategies as st
 
 from vlib import fwbuild as fb
-from vlib.runner import Result, hyp_settings
+from vlib.runner import HarnessError, Result, hyp_settings
 
 ID = "C15"
 LEVEL = "exploration"
@@ -27,7 +27,7 @@ RULE = (
     "400, >=60 ms between triggers once millis() is non-zero. Non-trivial = tape with >=2 rising edges and a held stretch, or a timeout followed by a good "
     "echo, or two measurements < 60 ms apart. distinct = distinct (sketch, tape)."
 )
-ASSUMPTIONS = ["millis() rollover is not exercised: unsigned long is 64-bit on the host, so 32-bit wrap arithmetic of the firmware cannot be observed in the mock", "electrical bounce and pulseIn timing accuracy are not modelled; the virtual clock advances only through delay()/pulseIn()/jitter",
+ASSUMPTIONS = ["millis() rollover is exercised on a second build of the same sketch in which `unsigned long` is textually rendered as uint32_t (its width on the AVR targets); int stays 32-bit", "electrical bounce and pulseIn timing accuracy are not modelled; the virtual clock advances only through delay()/pulseIn()/jitter",
                "buttons declared at the top of the main-loop body are excluded by construction (open finding: no initial sample in setup)"]
 
 HEAD = ("from Reduino.Communication import SerialMonitor\nfrom Reduino.Sensors import Button, Potentiometer, Ultrasonic\nfrom Reduino.Utils import sleep\n")
@@ -136,8 +136,10 @@ def tape(draw, n):
             seq.append(rnd.choice([58, 583, 1166, 5830, 23323, 29999, 30000, 40000, 150]))
         pulse[e] = seq
     jitter = [rnd.choice([0, 0, 1, 30, 59, 60, 200]) for _ in range(n)]
-    # no start near the 32-bit millis() wrap: `unsigned long` is 64-bit on the host, so wrap arithmetic is not representative there
     t0 = rnd.choice([0, 0, 5_000_000, 1_000, 59_000])
+    if rnd.randint(0, 2) == 0:
+        # shortly before the 32-bit millis() wrap (49.7 days of up-time): these tapes run on the build whose `unsigned long` is 32 bits wide
+        t0 = (2**32 - rnd.choice([1, 30, 59, 60, 61, 100, 150, 200, 400, 1000])) * 1000
     return {"digital": levels, "analog": analog, "pulse": pulse, "jitter": jitter, "t0_us": t0}
 
 
@@ -323,8 +325,17 @@ def evaluate(case):
             exe = fb.build(cpp, wd)
         except fb.CompileError as e:
             return "FAIL", [{"bucket": "compile-error", "case": case, "expected": "compiles", "observed": str(e)[:300]}]
+        exe32 = None
         for tp in case["tapes"]:
-            fails = run_one(exe, wd, sk, tp, case["n"])
+            use = exe
+            if tp["t0_us"] >= 2**31 * 1000:
+                if exe32 is None:
+                    try:
+                        exe32 = fb.build(fb.avr_ulong(cpp), wd, name="sketch32")
+                    except fb.CompileError as e:
+                        raise HarnessError("the 32-bit `unsigned long` rendering of the sketch does not compile: " + str(e)[:300])
+                use = exe32
+            fails = run_one(use, wd, sk, tp, case["n"])
             for b, e, o in fails[:1]:
                 out.append({"bucket": b, "case": dict(case, tapes=[tp]), "expected": str(e), "observed": str(o)})
             if fails:
